@@ -10,8 +10,10 @@ endpoint had advertised when the step was taken.
 The monitor keeps the *peer's view*: conn window = 65535 + Σ WINDOW_UPDATE(0) − Σ L of
 DATA frames that were within the advertised windows; per-stream windows likewise.
 It models the branch structure of `serverConn.processData` (which windows a DATA frame is
-charged against: stream state, declared Content-Length, closed request body) and the
-double refund of `serverConn.closeStream` + `noteBodyRead` (`over`, see Proofs/C10).
+charged against: stream state, declared Content-Length, closed request body).
+`serverConn.closeStream` discards the unread body (BreakWithError) and refunds it once; a
+history in which those bytes are read and refunded again (the defect repaired by the
+`fix: http2: ...closeStream...` commit) lifts the window above its configured size and is rejected.
 -/
 namespace NetVerif.Model.FlowMonitor
 open NetVerif.Model.Flow
@@ -69,7 +71,6 @@ structure Mon where
   configured : Int       -- configured connection receive window
   streamInit : Int       -- advertised initial stream window
   conn : Int             -- peer's view of the connection receive window
-  over : Int             -- bytes read by the application after closeStream (refunded twice)
   sumWU : Int            -- ghost: Σ WINDOW_UPDATE(0)
   sumData : Int          -- ghost: Σ flow-controlled length of DATA within the windows
   maxSid : Nat
@@ -77,7 +78,7 @@ structure Mon where
 deriving Repr, DecidableEq
 
 /-- Before any connection: the RFC initial window, nothing sent or received. -/
-def Mon.init : Mon := ⟨false, false, 0, 0, initialWindowSize, 0, 0, 0, 0, []⟩
+def Mon.init : Mon := ⟨false, false, 0, 0, initialWindowSize, 0, 0, 0, []⟩
 
 def findStream (ss : List StreamSt) (sid : Nat) : Option StreamSt :=
   ss.find? (fun s => s.id == sid)
@@ -91,9 +92,9 @@ def updStream : List StreamSt → Nat → (StreamSt → StreamSt) → List Strea
 def flowLen (len pad : Int) : Int := if pad < 0 then len else len + pad + 1
 
 /-- Residue check shared by `reset` and `quiesce` (C10.holds_partial): the peer's view is
-the configured size (plus modelled over-refund) minus a residue below both batching bounds. -/
+the configured size minus a residue below both batching bounds. -/
 def residueOK (m : Mon) : Bool :=
-  let residue := m.configured + m.over - m.conn
+  let residue := m.configured - m.conn
   decide (0 ≤ residue) && (decide (residue = 0) || (decide (residue < inflowMinRefresh) && decide (residue < m.conn)))
 
 /-- Verdict of the action part of a line: new state and, for a DATA frame beyond an
@@ -158,7 +159,7 @@ def obsStep (fc : Option Nat) (m : Mon) : Obs → Except String Mon
     if sid = 0 then
       let c := m.conn + n
       if c > maxWindow then .error "conn-window-exceeds-2^31-1"
-      else if c > m.configured + m.over then .error "conn-window-above-configured"
+      else if c > m.configured then .error "conn-window-above-configured"
       else .ok { m with conn := c, sumWU := m.sumWU + n }
     else
       match findStream m.streams sid with
@@ -179,8 +180,7 @@ def obsStep (fc : Option Nat) (m : Mon) : Obs → Except String Mon
       if n < 0 then .error "negative-read"
       else if st.delivered + n > st.bodyBytes then .error "delivered-more-than-accepted"
       else
-        let m1 := { m with streams := updStream m.streams sid (fun s => { s with delivered := s.delivered + n }) }
-        .ok (if st.status = .closed then { m1 with over := m1.over + n } else m1)
+        .ok { m with streams := updStream m.streams sid (fun s => { s with delivered := s.delivered + n }) }
   | .crst sid => .ok (setStatus m sid .closed)
   | .closed => .ok { m with dead := true }
   | .skipped => .ok m
@@ -216,7 +216,7 @@ def finishLine (act : Act) (m' : Mon) : Except String Mon :=
   | .quiesce =>
     if m'.dead || residueOK m' then
       .ok { m' with streams := m'.streams.map (fun s => { s with status := .closed }) }
-    else if m'.configured + m'.over - m'.conn < 0 then .error "over-refund" else .error "credit-leak"
+    else if m'.configured - m'.conn < 0 then .error "over-refund" else .error "credit-leak"
   | _ => .ok m'
 
 /-- Any other line, on a live connection. -/
